@@ -91,7 +91,9 @@ fn main() {
         println!("{}", if cfg!(fast_arithmetic = "64") { "yes" } else { "no" });
         return;
     }
-    std::panic::set_hook(Box::new(|_| {}));
+    if std::env::var_os("SJH_LEX_VERBOSE").is_none() {
+        std::panic::set_hook(Box::new(|_| {}));
+    }
     let stdin = std::io::stdin();
     let input: Box<dyn BufRead> = if args.len() > 1 {
         Box::new(std::io::BufReader::new(std::fs::File::open(&args[1]).expect("case file")))
